@@ -262,6 +262,12 @@ impl RADAU {
             }));
         }
         h = h.clamp(-hmax, hmax);
+        // The first step may already reach xend (RADAU5: IF ((X+H*1.0001-XEND)*POSNEG.GE.0))
+        let mut last = false;
+        if (x + h * 1.0001 - xend) * posneg >= 0.0 {
+            h = xend - x;
+            last = true;
+        }
 
         // --- Declarations ---
 
@@ -296,7 +302,6 @@ impl RADAU {
         let mut hold = h;
         let mut hnew: Float;
         let mut hhfac: Float = h;
-        let mut last = false;
         let mut reject = false;
         let mut h_acc: Float = 0.0;
         let mut err_acc: Float = 0.0;
